@@ -821,6 +821,11 @@ class Interp:
             arms = [x for x in c[1:3] if isinstance(x, int) and x in val]
             # only the arm on the executed path has been evaluated *after* the condition; pick by the condition's truth
             cv = self.rv(V(c[0]))
+            if cv is None and len(arms) == 1:
+                # the condition is a short-circuit expression spread over several blocks (no value of its own): the arm that was
+                # evaluated on this path is the one the condition chose
+                val[i] = V(arms[0])
+                return
             tr = self.truth(cv, fn, e) if not isinstance(cv, Op) else None
             if tr is None:
                 self.broken(fn, e, 'conditional operator on an opaque value')
